@@ -1,0 +1,159 @@
+//go:build verif
+
+package datamodel
+
+// Contracts for govc (see /verif/DESIGN.md §4.1, §4.2). Comment-only; compiled
+// only under the build tag "verif". Every line starting with //@ is part of a
+// contract.
+//
+// Abstract value model: every Node denotes a Val; the observers below are the
+// vocabulary in which all interface contracts are written.
+
+//@ sort Val
+//@ ghost field Node.val Val
+//@ pure func vkind(v Val) Kind
+//@ pure func vabsent(v Val) bool
+//@ pure func vlen(v Val) mathint
+//@ pure func vkey(v Val, i mathint) Val
+//@ pure func vkeystr(v Val, i mathint) string
+//@ pure func vchild(v Val, i mathint) Val
+//@ pure func vidx(v Val, k string) mathint
+//@ pure func vbool(v Val) bool
+//@ pure func vint(v Val) mathint
+//@ pure func vfloat(v Val) float64
+//@ pure func vstr(v Val) string
+//@ pure func vbytes(v Val) string
+//@ pure func vlink(v Val) Link
+//@ pure func isrec(v Val) bool = vkind(v) == Kind_Map || vkind(v) == Kind_List
+
+//@ axiom vlen_nonneg: forall v Val :: vlen(v) >= 0
+//@ axiom vkey_is_string: forall v Val, i mathint :: vkind(v) == Kind_Map && 0 <= i && i < vlen(v) ==> vkind(vkey(v, i)) == Kind_String && vstr(vkey(v, i)) == vkeystr(v, i)
+//@ axiom vidx_sound: forall v Val, k string :: 0 <= vidx(v, k) && vidx(v, k) < vlen(v) ==> vkeystr(v, vidx(v, k)) == k
+//@ axiom vidx_complete: forall v Val, i mathint :: vkind(v) == Kind_Map && 0 <= i && i < vlen(v) ==> vidx(v, vkeystr(v, i)) == i
+//@ axiom vint_range: forall v Val :: vkind(v) == Kind_Int ==> 0 - 9223372036854775808 <= vint(v) && vint(v) <= 18446744073709551615
+
+// ---- Node ----
+
+//@ interface Node.Kind() (k)
+//@   assigns nothing
+//@   noalloc
+//@   ensures k == vkind(recv.val)
+//@   ensures k == Kind_Invalid || k == Kind_Map || k == Kind_List || k == Kind_Null || k == Kind_Bool || k == Kind_Int || k == Kind_Float || k == Kind_String || k == Kind_Bytes || k == Kind_Link
+
+//@ interface Node.Length() (n)
+//@   assigns nothing
+//@   noalloc
+//@   ensures isrec(recv.val) ==> n == vlen(recv.val)
+//@   ensures !isrec(recv.val) ==> n == 0 - 1
+
+//@ interface Node.IsNull() (r)
+//@   assigns nothing
+//@   noalloc
+//@   ensures r == (vkind(recv.val) == Kind_Null)
+
+//@ interface Node.IsAbsent() (r)
+//@   assigns nothing
+//@   noalloc
+//@   ensures r == vabsent(recv.val)
+
+//@ interface Node.AsBool() (v, err)
+//@   assigns nothing
+//@   ensures vkind(recv.val) == Kind_Bool ==> err == nil && v == vbool(recv.val)
+//@   ensures vkind(recv.val) != Kind_Bool ==> err != nil
+
+//@ interface Node.AsInt() (v, err)
+//@   assigns nothing
+//@   ensures vkind(recv.val) == Kind_Int && vint(recv.val) <= 9223372036854775807 ==> err == nil && v == vint(recv.val)
+//@   ensures vkind(recv.val) != Kind_Int || vint(recv.val) > 9223372036854775807 ==> err != nil
+
+//@ interface UintNode.AsUint() (v, err)
+//@   assigns nothing
+//@   ensures vkind(recv.val) == Kind_Int && vint(recv.val) >= 0 ==> err == nil && v == vint(recv.val)
+//@   ensures vkind(recv.val) != Kind_Int || vint(recv.val) < 0 ==> err != nil
+
+//@ interface Node.AsFloat() (v, err)
+//@   assigns nothing
+//@   ensures vkind(recv.val) == Kind_Float ==> err == nil && v == vfloat(recv.val)
+//@   ensures vkind(recv.val) != Kind_Float ==> err != nil
+
+//@ interface Node.AsString() (v, err)
+//@   assigns nothing
+//@   ensures vkind(recv.val) == Kind_String ==> err == nil && v == vstr(recv.val)
+//@   ensures vkind(recv.val) != Kind_String ==> err != nil
+
+//@ interface Node.AsBytes() (v, err)
+//@   assigns nothing
+//@   ensures vkind(recv.val) == Kind_Bytes ==> err == nil && len(v) == len(vbytes(recv.val)) && (forall i mathint :: 0 <= i && i < len(v) ==> v[i] == vbytes(recv.val)[i])
+//@   ensures vkind(recv.val) != Kind_Bytes ==> err != nil
+
+//@ interface Node.AsLink() (v, err)
+//@   assigns nothing
+//@   ensures vkind(recv.val) == Kind_Link ==> err == nil && v == vlink(recv.val) && v != nil
+//@   ensures vkind(recv.val) != Kind_Link ==> err != nil
+
+//@ interface Node.LookupByString(key) (r, err)
+//@   assigns nothing
+//@   ensures err == nil ==> r != nil
+//@   ensures vkind(recv.val) == Kind_Map && err == nil ==> 0 <= vidx(recv.val, key) && vidx(recv.val, key) < vlen(recv.val) && r.val == vchild(recv.val, vidx(recv.val, key))
+//@   ensures vkind(recv.val) == Kind_Map && !(0 <= vidx(recv.val, key) && vidx(recv.val, key) < vlen(recv.val)) ==> err != nil
+//@   ensures vkind(recv.val) != Kind_Map && vkind(recv.val) != Kind_List ==> err != nil
+
+//@ interface Node.LookupByIndex(idx) (r, err)
+//@   assigns nothing
+//@   ensures err == nil ==> r != nil
+//@   ensures vkind(recv.val) == Kind_List && err == nil ==> 0 <= idx && idx < vlen(recv.val) && r.val == vchild(recv.val, idx)
+//@   ensures vkind(recv.val) == Kind_List && !(0 <= idx && idx < vlen(recv.val)) ==> err != nil
+//@   ensures vkind(recv.val) != Kind_Map && vkind(recv.val) != Kind_List ==> err != nil
+
+//@ interface Node.LookupBySegment(seg) (r, err)
+//@   assigns nothing
+//@   ensures err == nil ==> r != nil
+
+//@ interface Node.LookupByNode(key) (r, err)
+//@   assigns nothing
+//@   ensures err == nil ==> r != nil
+
+//@ ghost field MapIterator.src Val
+//@ ghost field MapIterator.pos mathint mutable
+//@ ghost field ListIterator.src Val
+//@ ghost field ListIterator.pos mathint mutable
+
+//@ interface Node.MapIterator() (it)
+//@   assigns it.pos
+//@   ensures vkind(recv.val) == Kind_Map ==> it != nil && fresh(it) && it.src == recv.val && it.pos == 0
+//@   ensures vkind(recv.val) != Kind_Map ==> it == nil
+
+//@ interface Node.ListIterator() (it)
+//@   assigns it.pos
+//@   ensures vkind(recv.val) == Kind_List ==> it != nil && fresh(it) && it.src == recv.val && it.pos == 0
+//@   ensures vkind(recv.val) != Kind_List ==> it == nil
+
+//@ interface MapIterator.Next() (k, v, err)
+//@   assigns recv.pos
+//@   ensures err == nil ==> 0 <= old(recv.pos) && old(recv.pos) < vlen(recv.src) && recv.pos == old(recv.pos) + 1
+//@   ensures err == nil ==> k != nil && v != nil && k.val == vkey(recv.src, old(recv.pos)) && v.val == vchild(recv.src, old(recv.pos))
+//@   ensures err != nil ==> recv.pos == old(recv.pos)
+//@   ensures old(recv.pos) >= vlen(recv.src) ==> err != nil
+
+//@ interface MapIterator.Done() (d)
+//@   assigns nothing
+//@   noalloc
+//@   ensures d == (recv.pos >= vlen(recv.src))
+//@   ensures 0 <= recv.pos
+
+//@ interface ListIterator.Next() (i, v, err)
+//@   assigns recv.pos
+//@   ensures err == nil ==> 0 <= old(recv.pos) && old(recv.pos) < vlen(recv.src) && recv.pos == old(recv.pos) + 1
+//@   ensures err == nil ==> v != nil && i == old(recv.pos) && v.val == vchild(recv.src, old(recv.pos))
+//@   ensures err != nil ==> recv.pos == old(recv.pos)
+//@   ensures old(recv.pos) >= vlen(recv.src) ==> err != nil
+
+//@ interface ListIterator.Done() (d)
+//@   assigns nothing
+//@   noalloc
+//@   ensures d == (recv.pos >= vlen(recv.src))
+//@   ensures 0 <= recv.pos
+
+//@ interface Node.Prototype() (np)
+//@   assigns nothing
+//@   ensures np != nil
